@@ -45,7 +45,11 @@ class LZSResetViaResonator(cirq.Gate):
         return cirq.reset_each(*qubits)
 
     def _json_dict_(self) -> dict[str, Any]:
-        return {}
+        if self._num_qubits == 1:
+            return {}
+        return {'num_qubits': self._num_qubits}
 
     def __repr__(self) -> str:
-        return 'cirq_google.LZSResetViaResonator()'
+        if self._num_qubits == 1:
+            return 'cirq_google.LZSResetViaResonator()'
+        return f'cirq_google.LZSResetViaResonator(num_qubits={self._num_qubits})'
